@@ -26,7 +26,88 @@ def unjson(v):
     return v
 
 
+def search_main():
+    """run.py --search <rid> <meta json> <budget> <seed>: try candidate inputs until the clause fails"""
+    rid, meta_s, budget, seed = sys.argv[2:6]
+    meta = json.loads(meta_s)
+    from replay import runners
+    out = {"reproduced": False, "observed": None, "tried": 0}
+    if rid not in runners.SEARCH:
+        out["observed"] = "no witness search for " + rid
+        print(json.dumps(out))
+        return
+    name = meta["obligation"]
+    n = 0
+    try:
+        for model in runners.SEARCH[rid](meta, int(seed), int(budget)):
+            n += 1
+            try:
+                r = runners.RUNNERS[rid](model, meta)
+            except Exception:
+                continue
+            bad = False
+            if name.startswith("xpost:unexpected"):
+                bad = r.get("exc") is not None and type(r["exc"]).__name__ == name.split()[-1]
+            elif name.startswith("post#"):
+                try:
+                    bad = ("verdict" in r and bool(r["verdict"])) or ("verdict" not in r and not eval_clause_concrete(meta, name, r))
+                except Exception:
+                    bad = False
+            if bad:
+                out["reproduced"] = True
+                out["model"] = model
+                out["observed"] = {k: repr(v)[:600] for k, v in r.items() if k != "env"}
+                out["inputs"] = {k: repr(v)[:300] for k, v in r.get("env", {}).items()}
+                break
+            if n >= int(budget):
+                break
+    except Exception:
+        out["observed"] = "search error: " + traceback.format_exc()[-1200:]
+    out["tried"] = n
+    print(json.dumps(out, default=str))
+
+
+def sweep_main():
+    """run.py --sweep <rid> <meta json> <budget> <seed>: bounded stand-in - every candidate input of
+    the contract's generator is run through the real code and ALL ensures clauses are evaluated"""
+    import importlib
+    rid, meta_s, budget, seed = sys.argv[2:6]
+    meta = json.loads(meta_s)
+    from replay import runners
+    mod = importlib.import_module(f"contracts.{meta['prop']}")
+    c = next(x for x in mod.REGISTRY.all + list(getattr(mod, "BOUNDED_CONTRACTS", [])) if x.name == meta["contract"])
+    out = {"cases": 0, "evaluations": 0, "failures": [], "samples": []}
+    for model in runners.SEARCH[rid](meta, int(seed), int(budget)):
+        if out["cases"] >= int(budget):
+            break
+        try:
+            r = runners.RUNNERS[rid](model, meta)
+        except Exception:
+            continue
+        out["cases"] += 1
+        if len(out["samples"]) < 3:
+            out["samples"].append({k: repr(v)[:200] for k, v in model.items()})
+        if r.get("exc") is not None:
+            if not getattr(c, "raises_any", False):
+                out["failures"].append({"name": f"{c.name}: unexpected {type(r['exc']).__name__}", "model": model})
+            continue
+        for k, cl in enumerate(c.ensures):
+            out["evaluations"] += 1
+            try:
+                ok = eval_clause_concrete(meta, f"post#{k}:", r)
+            except Exception:
+                ok = True
+            if not ok and len(out["failures"]) < 5:
+                out["failures"].append({"name": f"{c.name} :: post#{k}:{' '.join(str(cl).split())[:80]}", "model": model,
+                                        "observed": repr(r.get("result"))[:300]})
+    print(json.dumps(out, default=str))
+
+
 def main():
+    if sys.argv[1] == "--search":
+        return search_main()
+    if sys.argv[1] == "--sweep":
+        return sweep_main()
     rid, model_s, meta_s = sys.argv[1:4]
     model = {k: unjson(v) for k, v in json.loads(model_s).items()}
     meta = json.loads(meta_s)
